@@ -19,7 +19,7 @@ RULE = ("full in-memory stack; byte strings of EVERY length 0..3100 (covering th
         "of another driver that enabled BLOBs (Also) and is registered before the remote connections; each followed by further traffic and by a delivery that is held "
         "half-way. Monitors: logical step budget on every Buffer.process call inside the event loop, bounded quiescence, task "
         "liveness, immutability of every routed message object across its fan-out, wire taps (no payload bytes to a client that did not enable BLOBs), element value/format/length/state on both "
-        "sides. non-trivial = a payload that was published or uploaded; distinct = hash(length, configuration, fragmentation, format)")
+        "sides. In every third real-Client session the BLOB connection comes up 3..40 loop iterations late while another client's getProperties makes the driver define, so that the definitions reach the control connection before the second connection exists. non-trivial = a payload that was published or uploaded; distinct = hash(length, configuration, fragmentation, format)")
 ASSUMPTIONS = ["payloads are published after the client's handshake (incl. its enableBLOB) has been processed",
                "known finding: a payload message longer than the junk threshold on a link whose threshold is enabled is dropped"]
 REQUIRED_EVENTS = ["sessions", "payloads_published", "payloads_uploaded", "payloads_verified", "no_payload_checks", "republished_same_object",
